@@ -796,9 +796,9 @@ class HelperFlows(Suite):
             rets = [("unknown", None)]
             rets += [("result", G.obj(tr, rng, extras="none")) for _ in range(n)] + [("result", {})]
             rets += [("dict", schema_gen.any_object(rng)) for _ in range(n)] + [("dict", {}), ("dict", {"result": None}), ("dict", {"schema": 1, "schema_": 2})]
-            rets += [("str", sv) for sv in rng.sample(schema_gen.STRS, n)] + [("str", "")]
+            rets += [("str", sv) for sv in rng.sample(schema_gen.STRS, min(n, len(schema_gen.STRS)))] + [("str", "")]
             rets += [("other", ov) for ov in (0, 1, 7.5, True, False, None, [], [1, "a"], [None])]
-            rets += [("raise", sv) for sv in rng.sample(schema_gen.STRS, n)] + [("raise", ""), ("raise", "%s {0}")]
+            rets += [("raise", sv) for sv in rng.sample(schema_gen.STRS, min(n, len(schema_gen.STRS)))] + [("raise", ""), ("raise", "%s {0}")]
             for k, v in rets:
                 out.append({"flow": "registry", "ret": {"kind": k, "value": v}})
         if "ElicitationParams" in S:
